@@ -48,7 +48,7 @@ LeafEq(fv, av) ==
     ELSE DeepEq(fv, av)
 IsLeaf(e) == e.op \in {"const", "path"}
 RECURSIVE AllBinary(_)
-AllBinary(a) == IsLeaf(a) \/ (a.op \notin {"!", "length", "count"} /\ AllBinary(a.l) /\ AllBinary(a.r))
+AllBinary(a) == IsLeaf(a) \/ (a.op \notin {"!", "length", "count"} /\ "r" \in DOMAIN a /\ AllBinary(a.l) /\ AllBinary(a.r))
 OpNorm(o) == IF o = "~=" THEN "=~" ELSE o
 RECURSIVE SameShape(_, _)
 SameShape(f, a) == IF f.op = "(" THEN SameShape(f.l, a)
@@ -64,11 +64,26 @@ TargetTree(ev) == IF ev.k = "eq" THEN ev.ast
 ShapeBroken(ev) == /\ IsEq(ev) /\ AllBinary(TargetTree(ev))
                    /\ \/ (ev.tr.op # "?" /\ ~SameShape(ev.tr, TargetTree(ev)))
                       \/ (ev.to.op # "?" /\ ~SameShape(ev.to, TargetTree(ev)))
+\* the functions the harness registers for the text cases hand an argument through: vid(x) = x, vfirst(x, y) = x, vsecond(x, y) = y
+\* (jp.RegisterUnaryFunction / RegisterBinaryFunction with get = false); for the model the call is its argument
+RECURSIVE Strip(_)
+Strip(e) == IF e.op \in {"const", "path"} THEN e
+            ELSE IF e.op \in {"vid", "vfirst"} THEN Strip(e.l)
+            ELSE IF e.op = "vsecond" THEN Strip(e.r)
+            ELSE IF "r" \in DOMAIN e THEN [e EXCEPT !.l = Strip(e.l), !.r = Strip(e.r)]
+            ELSE [e EXCEPT !.l = Strip(e.l)]
 \* what $ denotes: the element for Script.Match, the list [elem] when the filter is applied to that list
 RootOfForm(ev) == IF ev.form \in {"Filter.String", "ParseString.filter", "NewFilter"} THEN ArrV(<<ev.elem>>) ELSE ev.elem
 ModelSays(ev) == IF ev.k = "eq" THEN Expect(ev.ast, ev.elem, RootOfForm(ev))
-                 ELSE IF ev.k = "txt" THEN Expect(Intended(ev.case.items), ev.elem, RootOfForm(ev))
+                 ELSE IF ev.k = "txt" THEN Expect(Strip(Intended(ev.case.items)), ev.elem, RootOfForm(ev))
                  ELSE "ANY"
+\* cases that name several elements (ev.case.elems; the function-argument table of PathTextGen): the original and the re-parsed
+\* script are evaluated on every one of them (ev.mos / ev.mrs, joined in eos / ers) and the model is asked about every one
+RootFor(ev, el) == IF ev.form \in {"Filter.String", "ParseString.filter", "NewFilter"} THEN ArrV(<<el>>) ELSE el
+ModelTree(ev) == IF ev.k = "eq" THEN ev.ast ELSE Strip(Intended(ev.case.items))
+MultiModelBad(ev, outs) == /\ IsEq(ev) /\ "elems" \in DOMAIN ev.case /\ Len(outs) = Len(ev.case.elems)
+                           /\ \E i \in 1..Len(outs) : LET m == Expect(ModelTree(ev), ev.case.elems[i], RootFor(ev, ev.case.elems[i])) IN
+                                                       (m = "T" /\ outs[i] = 0) \/ (m = "F" /\ outs[i] = 1)
 Verdict14(ev) ==
     IF ev.perr = 2 THEN "printer-panics"
     ELSE IF ev.perr = 1 THEN "does-not-parse"
@@ -82,8 +97,9 @@ Verdict14(ev) ==
     \* ALLOW: an original whose repeated evaluation on the same data gives several results (Expr.Get through a wildcard
     \* or descent over maps followed by a descent depends on map order: a C05 matter) has no value to preserve
     ELSE IF ~ev.same /\ Len(ev.eos) = 1 /\ ev.ers # ev.eos /\ ~OrderDependent(ev) THEN "evaluates-differently"
-    ELSE IF IsEq(ev) /\ ev.mo = 2 THEN "panic"
+    ELSE IF IsEq(ev) /\ (ev.mo = 2 \/ \E i \in 1..Len(ev.mos) : ev.mos[i] = 2) THEN "panic"
     ELSE IF IsEq(ev) /\ ((ModelSays(ev) = "T" /\ ev.mo = 0) \/ (ModelSays(ev) = "F" /\ ev.mo = 1)) THEN "model-differs"
+    ELSE IF MultiModelBad(ev, ev.mos) \/ MultiModelBad(ev, ev.mrs) THEN "model-differs"
     ELSE "ok"
 \* ---- locus of a path case: the fragment kinds of the (shrunk) expression, keys by byte class
 Alnum(b) == (48 <= b /\ b <= 57) \/ (65 <= b /\ b <= 90) \/ (97 <= b /\ b <= 122) \/ b = 95
@@ -113,7 +129,7 @@ PathLocus(cs) == (IF "root" \in DOMAIN cs THEN "" ELSE "rel ") \o JoinNames(cs.f
 \* the (parent op, child ops) triple of an equation
 OpOf(e) == IF e.op \in {"const", "path"} THEN "leaf" ELSE e.op
 Triple(e) == IF e.op \in {"const", "path"} THEN <<"leaf", "-", "-">>
-             ELSE IF e.op \in {"!", "length", "count"} THEN <<e.op, OpOf(e.l), "-">>
+             ELSE IF e.op \in {"!", "length", "count"} \/ "r" \notin DOMAIN e THEN <<e.op, OpOf(e.l), "-">>
              ELSE <<e.op, OpOf(e.l), OpOf(e.r)>>
 
 RoundTrip == /\ c <= N
